@@ -456,6 +456,19 @@ static void atfork_prepare_forks_helper(void) {
     int st = 0; while (g > 0 && waitpid(g, &st, 0) < 0 && errno == EINTR) {}
     nested = 0;
 }
+/* The same application handlers registered BEFORE the library's: the library registers its fork handlers from a constructor, so only an object
+   whose constructor runs earlier gets in front (a library listed after it in LD_PRELOAD; here: a constructor with a priority, which the loader
+   runs before the unprioritised ones of the same executable).  VS_EARLY_ATFORK = comma list of prefork / exec / fork, registered in that order.
+   Child handlers run in registration order (the application's first, the library's clean-up after it), prepare handlers in reverse. */
+__attribute__((constructor(101))) static void early_atfork_setup(void) {
+    const char *e = getenv("VS_EARLY_ATFORK"); if (!e) return;
+    char buf[200]; strncpy(buf, e, sizeof buf - 1); buf[sizeof buf - 1] = 0;
+    for (char *sv = NULL, *t = strtok_r(buf, ",", &sv); t; t = strtok_r(NULL, ",", &sv)) {
+        if (!strcmp(t, "prefork")) pthread_atfork(atfork_prepare_forks_helper, NULL, NULL);
+        else if (!strcmp(t, "exec")) pthread_atfork(NULL, NULL, atfork_child_exec);
+        else if (!strcmp(t, "fork")) pthread_atfork(NULL, NULL, atfork_child_fork_exec);
+    }
+}
 static long onthread_kb = 0;
 struct thr_call { char **tok; int nt; };
 static void *thr_call_main(void *a) { struct thr_call *tc = a; do_call(tc->tok, tc->nt); return NULL; }
